@@ -16,6 +16,7 @@ import (
 	"os"
 	"os/exec"
 	"path/filepath"
+	"regexp"
 	"regexp/syntax"
 	"runtime"
 	"sort"
@@ -38,6 +39,60 @@ type vfC11Variant struct {
 	Pos  int    `json:"pos"`
 	Bit  int    `json:"bit"`
 	Hex  string `json:"hex,omitempty"`
+	// targeted corruption of ONE posting list (written by the Coq model, Model/FormatPosting.v: targets): the trigram
+	// whose list is damaged, whether it is a file-name trigram, the kind of damage and the list's place in the file
+	Tri   string `json:"tri,omitempty"`
+	Name  bool   `json:"name,omitempty"`
+	TKind int    `json:"tkind,omitempty"`
+	Off   int    `json:"off,omitempty"`
+	Sz    int    `json:"sz,omitempty"`
+}
+
+// vfC11TriQueries are the queries that read exactly the posting list of trigram tri and walk it to its end (Whole
+// search over every document): substring case-sensitive and insensitive, a regexp with that literal.
+func vfC11TriQueries(tri string, name bool) []query.Q {
+	return []query.Q{
+		&query.Substring{Pattern: tri, CaseSensitive: true, Content: !name, FileName: name},
+		&query.Substring{Pattern: strings.ToLower(tri), Content: !name, FileName: name},
+		&query.Regexp{Regexp: mustParseRE(regexp.QuoteMeta(tri) + "[a-z0-9]*"), CaseSensitive: true, Content: !name, FileName: name},
+		&query.Regexp{Regexp: mustParseRE("(?i)" + regexp.QuoteMeta(tri) + "[a-z0-9]*"), Content: !name, FileName: name},
+	}
+}
+
+// vfC11Extra serves dir and runs the trigram queries of a targeted variant: results of the healthy shard (canonical),
+// number of files found in the other shard, crash count.
+func vfC11Extra(dir string, v *vfC11Variant) (healthy string, hits int, crashes int, err error) {
+	ss, err := NewDirectorySearcher(dir)
+	if err != nil {
+		return "", 0, 0, err
+	}
+	defer ss.Close()
+	ctx := context.Background()
+	qs := vfC11TriQueries(v.Tri, v.Name)
+	for _, q := range qs {
+		res, err := ss.Search(ctx, q, &zoekt.SearchOptions{Whole: true})
+		if err != nil {
+			return "", 0, 0, fmt.Errorf("search %s: %w", q, err)
+		}
+		crashes += res.Stats.Crashes
+		healthy += "\n#" + q.String() + "\n" + vfC11Canon(res, "healthy")
+		for _, f := range res.Files {
+			if f.Repository != "healthy" {
+				hits++
+			}
+		}
+	}
+	rl, err := ss.List(ctx, qs[0], nil)
+	if err != nil {
+		return "", 0, 0, fmt.Errorf("list: %w", err)
+	}
+	crashes += rl.Crashes
+	for _, e := range rl.Repos {
+		if e.Repository.Name == "healthy" {
+			healthy += fmt.Sprintf("#list:%s|%d;", e.Repository.Name, e.Stats.Documents)
+		}
+	}
+	return
 }
 
 func vfC11BuildShard(t testing.TB, name string, compound bool, docs int) []byte {
@@ -213,6 +268,19 @@ func TestVerifC11Child(t *testing.T) {
 		os.WriteFile(filepath.Join(dir, "healthy_v16.00000.zoekt"), healthy, 0o644)
 		os.WriteFile(filepath.Join(dir, "victim_v16.00000.zoekt"), v.bytes(bases), 0o644)
 		f, r, otherRepos, otherFiles, crashes, err := vfC11Serve(dir)
+		hits := 0
+		if v.Tri != "" && err == nil {
+			// targeted variant: queries on exactly the trigram whose posting list is damaged
+			eb, _, _, berr := vfC11Extra(bdir, &v)
+			if berr != nil {
+				t.Fatalf("baseline broken for the trigram queries of %q: %v", v.Tri, berr)
+			}
+			ef, eh, ec, eerr := vfC11Extra(dir, &v)
+			hits, crashes, err = eh, crashes+ec, eerr
+			if eerr == nil && ef != eb {
+				f = "#trigram-queries-differ#" + ef
+			}
+		}
 		class := "error"
 		switch {
 		case err != nil:
@@ -225,7 +293,7 @@ func TestVerifC11Child(t *testing.T) {
 			class = "served-ok"
 		}
 		wd.Stop()
-		say("VFEND %d %s", v.ID, class)
+		say("VFEND %d %d %s", v.ID, hits, class)
 		os.RemoveAll(dir)
 	}
 	say("VFDONE")
@@ -283,6 +351,7 @@ func vfC11Site(stderr string, hang bool) (string, string) {
 
 type vfC11Outcome struct {
 	v     vfC11Variant
+	hits  int
 	class string
 	site  string
 	log   string
@@ -336,11 +405,15 @@ func vfC11RunBatch(t *testing.T, work string, bases [][]byte, healthy []byte, va
 					cur, _ = strconv.Atoi(strings.TrimPrefix(ln, "VFBEGIN "))
 					timer.Reset(10 * time.Second)
 				case strings.HasPrefix(ln, "VFEND "):
-					parts := strings.SplitN(strings.TrimPrefix(ln, "VFEND "), " ", 2)
+					parts := strings.SplitN(strings.TrimPrefix(ln, "VFEND "), " ", 3)
+					if len(parts) < 3 {
+						continue
+					}
 					id, _ := strconv.Atoi(parts[0])
+					hits, _ := strconv.Atoi(parts[1])
 					for _, v := range variants {
 						if v.ID == id {
-							results <- vfC11Outcome{v: v, class: parts[1]}
+							results <- vfC11Outcome{v: v, hits: hits, class: parts[2]}
 						}
 					}
 					done[id] = true
@@ -438,8 +511,26 @@ func TestVerifC11(t *testing.T) {
 	healthy := vfC11BuildShard(t, "healthy", false, 3)
 	var vs []vfC11Variant
 	add := func(v vfC11Variant) { v.ID = len(vs); vs = append(vs, v) }
+	exhaustive := vfTier() == "thorough"
+	// second pass (VERIF_C11_TARGETS): ONLY the targeted corruptions of single posting lists written by the Coq model
+	// from the bases of the first pass (file bytes + the trigram to query), interleaved over the workers
+	targeted := os.Getenv("VERIF_C11_TARGETS")
+	if targeted != "" {
+		raw, err := os.ReadFile(targeted)
+		if err != nil {
+			t.Fatal(err)
+		}
+		var ts []vfC11Variant
+		if err := json.Unmarshal(raw, &ts); err != nil {
+			t.Fatal(err)
+		}
+		for _, tv := range ts {
+			tv.Base = -1
+			add(tv)
+		}
+	}
 	// witnesses of the Coq refutation theorems (raw bytes computed by the model), and the intact shards
-	if wf := os.Getenv("VERIF_C11_WITNESSES"); wf != "" {
+	if wf := os.Getenv("VERIF_C11_WITNESSES"); wf != "" && targeted == "" {
 		raw, err := os.ReadFile(wf)
 		if err == nil {
 			var ws []string
@@ -449,13 +540,17 @@ func TestVerifC11(t *testing.T) {
 			}
 		}
 	}
-	for bi := range bases {
-		add(vfC11Variant{Base: bi, Kind: "intact"})
+	if targeted == "" {
+		for bi := range bases {
+			add(vfC11Variant{Base: bi, Kind: "intact"})
+		}
 	}
-	exhaustive := vfTier() == "thorough"
 	nb := 1
 	if exhaustive {
 		nb = len(bases)
+	}
+	if targeted != "" {
+		nb = 0
 	}
 	for bi := 0; bi < nb; bi++ {
 		base := bases[bi]
@@ -503,6 +598,9 @@ func TestVerifC11(t *testing.T) {
 	if exhaustive {
 		ng = 200
 	}
+	if targeted != "" {
+		ng = 0
+	}
 	for i := 0; i < ng; i++ {
 		sz := []int{0, 1, 7, 8, 9, 16, 100, 4096, 4097, 70000}[r.Intn(10)]
 		b := make([]byte, sz)
@@ -534,18 +632,29 @@ func TestVerifC11(t *testing.T) {
 	per := (len(vs) + workers - 1) / workers
 	for w := 0; w < workers; w++ {
 		lo, hi := w*per, min((w+1)*per, len(vs))
-		if lo >= hi {
-			break
+		chunk := []vfC11Variant(nil)
+		if targeted != "" {
+			// round robin: variants that hang cost two watchdog periods each
+			for i := w; i < len(vs); i += workers {
+				chunk = append(chunk, vs[i])
+			}
+		} else if lo < hi {
+			chunk = vs[lo:hi]
+		}
+		if len(chunk) == 0 {
+			continue
 		}
 		work := filepath.Join(tmp, fmt.Sprintf("c11-w%d", w))
+		if targeted != "" {
+			work = filepath.Join(tmp, fmt.Sprintf("c11-t%d", w))
+		}
 		os.MkdirAll(work, 0o755)
 		wg.Add(1)
 		go func(chunk []vfC11Variant) {
 			defer wg.Done()
-			// interleave so that every worker sees every region of the file
 			vfC11RunBatch(t, work, bases, healthy, chunk, results)
 			os.RemoveAll(work)
-		}(vs[lo:hi])
+		}(chunk)
 	}
 	go func() { wg.Wait(); close(results) }()
 	hist := map[string]int{}
@@ -562,6 +671,8 @@ func TestVerifC11(t *testing.T) {
 		switch {
 		case o.class == "HARNESS-FAILURE":
 			t.Errorf("child failed outside a variant: %s", o.log)
+		case o.v.Kind == "target-control" && (o.class != "served-ok" || o.hits == 0):
+			vfOracleFail("c11:target-control:"+cl, fmt.Sprintf("the intact shard queried for trigram %q: class %s, %d files found (the targeted queries must reach the posting list)", o.v.Tri, o.class, o.hits), replay)
 		case o.v.Kind == "intact" && o.class != "served-ok":
 			vfOracleFail("c11:intact:"+cl, "an intact shard is not served: "+o.class, replay)
 		case o.class == "HANG" || o.class == "PROCESS-CRASH":
@@ -570,6 +681,10 @@ func TestVerifC11(t *testing.T) {
 			what := "a corrupt shard file hangs the serving process"
 			if o.class == "PROCESS-CRASH" {
 				what = "a corrupt shard file crashes the serving process"
+			}
+			if o.v.Kind == "target" {
+				replay["queries"] = fmt.Sprint(vfC11TriQueries(o.v.Tri, o.v.Name))
+				what += fmt.Sprintf(" — posting list of trigram %q (file-name trigram: %v) at [%d,+%d) damaged (tkind %d), queries on that trigram", o.v.Tri, o.v.Name, o.v.Off, o.v.Sz, o.v.TKind)
 			}
 			vfOracleFail("c11:"+o.class+":"+o.site, fmt.Sprintf("%s (%s %d/%d) at %s", what, o.v.Kind, o.v.Pos, o.v.Bit, o.site), replay)
 		case o.class == "healthy-affected":
@@ -585,7 +700,8 @@ func TestVerifC11(t *testing.T) {
 			}
 			vfOracleFail("c11:api-error:"+op+":"+msg, "Search/List over a directory that contains a corrupt shard fails as a whole (healthy shards' results are lost): "+o.class, replay)
 		}
-		vfEmit(map[string]any{"kind": "outcome", "id": o.v.ID, "vkind": o.v.Kind, "base": o.v.Base, "pos": o.v.Pos, "bit": o.v.Bit, "class": cl, "site": o.site})
+		vfEmit(map[string]any{"kind": "outcome", "id": o.v.ID, "vkind": o.v.Kind, "base": o.v.Base, "pos": o.v.Pos, "bit": o.v.Bit, "class": cl, "site": o.site,
+			"tri": o.v.Tri, "tkind": o.v.TKind, "name": o.v.Name, "hits": o.hits})
 	}
 	if seen != len(vs) {
 		t.Errorf("only %d of %d variants were classified", seen, len(vs))
